@@ -1694,6 +1694,59 @@ def _forms(kind, value, r):
     return out
 
 
+# ------------------------------------------------------------------------------------ purity: arguments unchanged, second call equal
+
+def _held_forms(kind, value):
+    """forms of an argument that the CALLER keeps (so a change made by the generator is visible afterwards and in a second call):
+    (class, expression over v).  Arrays: every dtype that holds the values exactly, writeable float64 first (np.asarray(x, dtype=float)
+    returns the caller's own array exactly then)."""
+    out = []
+    if kind == 'array':
+        flat = [y for x in value for y in (x if isinstance(x, list) else [x])]
+        out += [('writeable float64 ndarray', 'np.array(v, dtype=np.float64)'), ('list', '[list(x) if isinstance(x, list) else x for x in v]'),
+                ('tuple', 'tuple(tuple(x) if isinstance(x, list) else x for x in v)'),
+                ('float32 ndarray', 'np.array(v, dtype=np.float32)'), ('float16 ndarray', 'np.array(v, dtype=np.float16)'),
+                ('Fortran-ordered float64 ndarray', 'np.asfortranarray(np.array(v, dtype=np.float64))'),
+                ('non-contiguous float64 view', 'np.repeat(np.array(v, dtype=np.float64), 2, axis=-1)[..., ::2]')]
+        if all(float(y).is_integer() for y in flat):
+            out += [(f'{dt} ndarray', f'np.array(v, dtype=np.{dt})') for dt in ('int64', 'int32', 'int16', 'int8')]
+            if all(y >= 0 for y in flat):
+                out += [(f'unsigned ({dt}) ndarray', f'np.array(v, dtype=np.{dt})') for dt in ('uint8', 'uint16', 'uint64')]
+    elif kind in ('iterable', 'collection', 'sequence'):
+        out += [('list', 'list(v)'), ('tuple', 'tuple(v)')]
+        if value and all(isinstance(x, tuple) and len(x) == 2 for x in value):
+            out += [('list of lists', '[list(x) for x in v]')]
+            try:
+                if len({x[0] for x in value}) == len(value):
+                    out += [('dict view', 'dict(v).items()')]
+            except TypeError:
+                pass
+        elif value and len(set(map(repr, value))) == len(value):
+            out += [('dict view', 'dict.fromkeys(v).keys()')]
+    elif kind == 'mapping':
+        out += [('dict', 'dict(v)'), ('Mapping that is not a dict', '__import__("collections").ChainMap({}, dict(v))')]
+    return out
+
+
+SNAP_SRC = r"""
+def snap(o):
+    # a value that is equal before and after iff the object (and what it holds) is unchanged, dtype / flags / order included
+    import numpy as np, collections.abc as abc
+    if isinstance(o, np.ndarray):
+        return ('ndarray', o.dtype.str, o.shape, o.strides, bool(o.flags.writeable), [snap(x) for x in o.ravel()] if o.dtype == object else o.tobytes())
+    if isinstance(o, (list, tuple)):
+        return (type(o).__name__, [snap(x) for x in o])
+    if isinstance(o, (abc.KeysView, abc.ValuesView)):
+        return (type(o).__name__, [snap(x) for x in o])
+    if isinstance(o, abc.ItemsView):
+        return (type(o).__name__, [(snap(k), snap(x)) for k, x in o])
+    if isinstance(o, abc.Mapping):
+        return (type(o).__name__, [(snap(k), snap(x)) for k, x in o.items()])
+    return (type(o).__name__, repr(o))
+"""
+exec(SNAP_SRC)
+
+
 def _same_model(a, b):
     if isinstance(a, dimod.ConstrainedQuadraticModel) or isinstance(b, dimod.ConstrainedQuadraticModel):
         return type(a) is type(b) and list(a.variables) == list(b.variables) and a.is_equal(b)
@@ -1764,6 +1817,66 @@ def forms_cases(ctx, r):
                         + (f'raises {type(err).__name__}: {err}' if got is None else f'accepted although the list form raises {type(ref_err).__name__}' if ref is None
                            else f'returns {coef(got) if not isinstance(got, dimod.ConstrainedQuadraticModel) else "a different CQM"}, the list form {coef(ref) if not isinstance(ref, dimod.ConstrainedQuadraticModel) else ""}'))
                 ctx.fail('property', site, cls, what[:1500], repro=repro)
+        pure(name, call, args, kinds, ref, ref_err)
+
+    def pure(name, call, args, kinds, ref, ref_err):
+        """the caller keeps the argument objects: they must be unchanged after the call (values, dtype, flags, order), a second call
+        with the SAME objects must return the same model, and that model is the one of the list form"""
+        site = f'generators.{name}'
+        held = {an: _held_forms(kind, args[an]) for an, kind in kinds.items()}
+        if not all(held.values()):
+            return
+        combos = [{an: fs[0] for an, fs in held.items()}]                                   # all writeable float64 / plain lists
+        for an, fs in held.items():                                                         # every form of one argument, one at a time over the reps
+            combos.append({a: (r.choice(fs) if a == an else r.choice(f2[:3])) for a, f2 in held.items()})
+        for _ in range(ctx.scale(1, 6)):
+            combos.append({an: r.choice(fs) for an, fs in held.items()})
+        for combo in combos:
+            env = dict(env0)
+            for an, val in args.items():
+                env[an] = eval(combo[an][1], {'v': val, 'np': np}) if an in combo else val
+            before = {an: snap(env[an]) for an in args}
+            outs = []
+            for _k in range(2):
+                with warnings.catch_warnings():
+                    warnings.simplefilter('ignore')
+                    try:
+                        outs.append(eval(call, env))
+                    except (ValueError, TypeError, RuntimeError, KeyError, IndexError, AttributeError) as e:
+                        outs.append(e)
+            after = {an: snap(env[an]) for an in args}
+            forms_txt = ', '.join(f'{an} = {combo[an][1]}' for an in combo)
+            ctx.tick(f'pure:{name}:' + '+'.join(sorted(set(c for c, _ in combo.values()))))
+            ctx.case(('pure', name, call, repr(args), forms_txt), nontrivial=ref is not None, sample=dict(call=call, forms=forms_txt))
+            binds = ''.join(f'{an}_list = {val!r}\n' for an, val in args.items())
+            bind = ''.join(f'v = {an}_list; {an} = ' + (combo[an][1] if an in combo else 'v') + '\n' for an in args)
+            model_eq = ('def same(a, b): return (a.is_equal(b) and list(a.variables) == list(b.variables)) if isinstance(a, dimod.ConstrainedQuadraticModel) else '
+                        '(a.vartype is b.vartype and list(a.variables) == list(b.variables) and coef(a) == coef(b))\n')
+            head = HDR + imports + SNAP_SRC + model_eq + binds
+            changed = [an for an in args if before[an] != after[an]]
+            m1, m2 = outs
+            def same(a, b):
+                if isinstance(a, Exception) or isinstance(b, Exception):
+                    return isinstance(a, Exception) and isinstance(b, Exception) and type(a) is type(b)
+                return _same_model(a, b)
+            if changed:
+                an = changed[0]
+                ctx.fail('property', site, f'{an} given as {combo[an][0] if an in combo else "list"}: the argument is changed by the call',
+                         f'{call} with {forms_txt} of {args!r}: {an} before {before[an]!r:.300}, after {after[an]!r:.300}',
+                         repro=head + bind + f'before = snap({an})\n{call}\nassert snap({an}) == before, "{call.split("(")[0]} changed its argument {an}"\n')
+            elif not same(m1, m2):
+                cls = '; '.join(f'{an} given as {c}' for an, (c, _) in sorted(combo.items()))
+                ctx.fail('property', site, cls + ': second call with the same argument objects differs',
+                         f'{call} with {forms_txt} of {args!r}: first {m1 if isinstance(m1, Exception) else (coef(m1) if not isinstance(m1, dimod.ConstrainedQuadraticModel) else canon_cqm(m1))!r:.500}, '
+                         f'second {m2 if isinstance(m2, Exception) else (coef(m2) if not isinstance(m2, dimod.ConstrainedQuadraticModel) else canon_cqm(m2))!r:.500}',
+                         repro=head + bind + f'a = {call}\nb = {call}\nassert same(a, b), "two calls with the same argument objects give different models"\n')
+            elif not same(m1, ref if ref is not None else ref_err):
+                bad = [an for an in combo if combo[an][0] not in ('list',)]
+                cls = '; '.join(f'{an} given as {combo[an][0]}' for an in sorted(bad))
+                ctx.fail('property', site, cls,
+                         f'{call} with {forms_txt} of {args!r}: ' + (f'raises {type(m1).__name__}: {m1}' if isinstance(m1, Exception) else 'accepted although the list form raises' if ref is None
+                                                                       else f'returns {coef(m1) if not isinstance(m1, dimod.ConstrainedQuadraticModel) else canon_cqm(m1)!r:.500}, the list form {coef(ref) if not isinstance(ref, dimod.ConstrainedQuadraticModel) else canon_cqm(ref)!r:.500}'),
+                         repro=head + ''.join(f'v = {an}_list; {an} = v\n' for an in args) + f'a = {call}\n' + bind + f'b = {call}\nassert same(a, b), "the model depends on the form of the argument(s) {sorted(bad)}"\n')
 
     pool = ['a', 'b', 'c', 'd', 0, 1, 2, 3, ('t', 1)]
     for rep in range(ctx.scale(10, 150)):
